@@ -94,8 +94,15 @@ func c19Tags(c *Ctx) {
 	c.Floor(rule, 60, "about 62 settings")
 }
 
-func kindConsts(fn *ssa.Function) map[int64]bool {
+func kindConsts(root *ssa.Function) map[int64]bool {
 	out := map[int64]bool{}
+	for _, fn := range scopeFuncs(root, 1) {
+		kindConstsIn(fn, out)
+	}
+	return out
+}
+
+func kindConstsIn(fn *ssa.Function, out map[int64]bool) {
 	eachInstr(fn, func(in ssa.Instruction) {
 		bo, ok := in.(*ssa.BinOp)
 		if !ok {
@@ -109,7 +116,6 @@ func kindConsts(fn *ssa.Function) map[int64]bool {
 			}
 		}
 	})
-	return out
 }
 
 func c19Kinds(c *Ctx) {
@@ -175,36 +181,107 @@ func c19LineShape(c *Ctx) {
 	}
 	body := head.Succs[0]
 	type tok struct{ kind, val string }
+	kindOfEdge := func(ifi *ssa.If, i int, kind int64) int64 {
+		if ifi != nil {
+			if bo, ok := ifi.Cond.(*ssa.BinOp); ok {
+				if call, ok := bo.X.(*ssa.Call); ok && calleeName(call) == "(*"+structsPkg+".Field).Kind" {
+					if kv, ok := constInt(bo.Y); ok && i == 0 {
+						return kv
+					}
+				}
+			}
+		}
+		return kind
+	}
+	// flatten: a string value as a token sequence (concatenations unfolded)
+	var flatten func(v ssa.Value, depth int) []tok
+	flatten = func(v ssa.Value, depth int) []tok {
+		if s, ok := constString(v); ok {
+			return []tok{{"lit", s}}
+		}
+		switch x := strip(v).(type) {
+		case *ssa.BinOp:
+			if x.Op == token.ADD && depth < 8 {
+				return append(flatten(x.X, depth+1), flatten(x.Y, depth+1)...)
+			}
+		case *ssa.Call:
+			switch calleeName(x) {
+			case "(*" + structsPkg + ".Field).Tag":
+				n, _ := constString(arg(x, 0))
+				return []tok{{"tag", n}}
+			case "fmt.Sprintf":
+				f, _ := constString(arg(x, 0))
+				return []tok{{"fmt", f}}
+			}
+		}
+		return []tok{{"val", ""}}
+	}
+	type alt struct {
+		kind int64
+		toks []tok
+	}
+	// helperAlts: the (kind, text) alternatives a first-party helper returning the line text can yield
+	helperAlts := func(h *ssa.Function) []alt {
+		var out []alt
+		var hw func(b *ssa.BasicBlock, kind int64, seen map[*ssa.BasicBlock]bool)
+		hw = func(b *ssa.BasicBlock, kind int64, seen map[*ssa.BasicBlock]bool) {
+			if seen[b] {
+				return
+			}
+			seen = copySet(seen)
+			seen[b] = true
+			var ifi *ssa.If
+			if n := len(b.Instrs); n > 0 {
+				ifi, _ = b.Instrs[n-1].(*ssa.If)
+				if r, ok := b.Instrs[n-1].(*ssa.Return); ok && len(r.Results) == 1 {
+					out = append(out, alt{kind, flatten(r.Results[0], 0)})
+				}
+			}
+			for i, s := range b.Succs {
+				hw(s, kindOfEdge(ifi, i, kind), seen)
+			}
+		}
+		hw(h.Blocks[0], -1, map[*ssa.BasicBlock]bool{})
+		return out
+	}
 	var paths [][]tok
 	var kinds []int64
-	var walk func(b *ssa.BasicBlock, toks []tok, kind int64, seen map[*ssa.BasicBlock]bool)
-	walk = func(b *ssa.BasicBlock, toks []tok, kind int64, seen map[*ssa.BasicBlock]bool) {
+	var walk func(b *ssa.BasicBlock, idx int, toks []tok, kind int64, seen map[*ssa.BasicBlock]bool)
+	walk = func(b *ssa.BasicBlock, idx int, toks []tok, kind int64, seen map[*ssa.BasicBlock]bool) {
 		if b == head {
 			paths = append(paths, toks)
 			kinds = append(kinds, kind)
 			return
 		}
-		if seen[b] {
-			return
+		if idx == 0 {
+			if seen[b] {
+				return
+			}
+			seen = copySet(seen)
+			seen[b] = true
 		}
-		seen = copySet(seen)
-		seen[b] = true
-		for _, in := range b.Instrs {
-			call, ok := in.(*ssa.Call)
+		for j := idx; j < len(b.Instrs); j++ {
+			call, ok := b.Instrs[j].(*ssa.Call)
 			if !ok {
 				continue
 			}
 			switch calleeName(call) {
 			case "(*strings.Builder).WriteString":
 				v := arg(call, 0)
-				if s, ok := constString(v); ok {
-					toks = append(toks, tok{"lit", s})
-				} else if tc, ok := strip(v).(*ssa.Call); ok && calleeName(tc) == "(*"+structsPkg+".Field).Tag" {
-					n, _ := constString(arg(tc, 0))
-					toks = append(toks, tok{"tag", n})
-				} else {
-					toks = append(toks, tok{"val", ""})
+				if hc, ok := strip(v).(*ssa.Call); ok {
+					if h := hc.Call.StaticCallee(); h != nil && IsFirstParty(h) && h.Blocks != nil && h.Pkg == fn.Pkg {
+						// the line text comes from a helper: one continuation per alternative
+						for _, a := range helperAlts(h) {
+							k := kind
+							if a.kind != -1 {
+								k = a.kind
+							}
+							walk(b, j+1, append(append([]tok(nil), toks...), a.toks...), k, seen)
+						}
+						return
+					}
 				}
+				toks = append(toks, flatten(v, 0)...)
 			case "fmt.Fprintf", "fmt.Fprint", "fmt.Fprintln":
 				f, _ := constString(arg(call, 1))
 				toks = append(toks, tok{"fmt", f})
@@ -217,25 +294,28 @@ func c19LineShape(c *Ctx) {
 			ifi, _ = b.Instrs[n-1].(*ssa.If)
 		}
 		for i, s := range b.Succs {
-			k := kind
-			if ifi != nil {
-				if bo, ok := ifi.Cond.(*ssa.BinOp); ok {
-					if call, ok := bo.X.(*ssa.Call); ok && calleeName(call) == "(*"+structsPkg+".Field).Kind" {
-						if kv, ok := constInt(bo.Y); ok && i == 0 {
-							k = kv
-						}
-					}
-				}
-			}
-			walk(s, append([]tok(nil), toks...), k, seen)
+			walk(s, 0, append([]tok(nil), toks...), kindOfEdge(ifi, i, kind), seen)
 		}
 	}
-	walk(body, nil, -1, map[*ssa.BasicBlock]bool{})
+	walk(body, 0, nil, -1, map[*ssa.BasicBlock]bool{})
+	// canonical form: adjacent literals merged
+	merge := func(p []tok) []tok {
+		var out []tok
+		for _, t := range p {
+			if t.kind == "lit" && len(out) > 0 && out[len(out)-1].kind == "lit" {
+				out[len(out)-1].val += t.val
+				continue
+			}
+			out = append(out, t)
+		}
+		return out
+	}
 	nLines := 0
 	for i, p := range paths {
 		if len(p) == 0 {
 			continue // skipped field
 		}
+		p = merge(p)
 		var parts []string
 		for _, t := range p {
 			parts = append(parts, t.kind+":"+strconv.Quote(t.val))
@@ -248,16 +328,16 @@ func c19LineShape(c *Ctx) {
 			continue
 		}
 		nLines++
-		good := len(p) >= 5 && p[0].kind == "tag" && p[0].val == "rdp" && p[1] == (tok{"lit", ":"}) && p[len(p)-1] == (tok{"lit", "\r\n"})
+		good := len(p) >= 2 && p[0].kind == "tag" && p[0].val == "rdp"
 		if good {
-			letter, vals := p[2], p[3:len(p)-1]
+			rest := p[1:]
 			switch reflect.Kind(kinds[i]) {
 			case reflect.String:
-				good = letter == (tok{"lit", "s:"}) && len(vals) == 1 && vals[0].kind == "val"
+				good = len(rest) == 3 && rest[0] == (tok{"lit", ":s:"}) && rest[1].kind == "val" && rest[2] == (tok{"lit", "\r\n"})
 			case reflect.Int:
-				good = letter == (tok{"lit", "i:"}) && len(vals) == 1 && vals[0] == (tok{"fmt", "%d"})
+				good = len(rest) == 3 && rest[0] == (tok{"lit", ":i:"}) && rest[1] == (tok{"fmt", "%d"}) && rest[2] == (tok{"lit", "\r\n"})
 			case reflect.Bool:
-				good = letter == (tok{"lit", "i:"}) && len(vals) == 1 && (vals[0] == (tok{"lit", "1"}) || vals[0] == (tok{"lit", "0"}))
+				good = len(rest) == 1 && (rest[0] == (tok{"lit", ":i:1\r\n"}) || rest[0] == (tok{"lit", ":i:0\r\n"}))
 			default:
 				good = false
 			}
@@ -338,12 +418,12 @@ func c19DefaultCompare(c *Ctx) {
 func c19Parser(c *Ctx) {
 	rule := "C19/parser"
 	fn := c.Fn("cmd/rdpgw/rdp/koanf/parsers/rdp", "RDP.Unmarshal")
-	splits := callsTo(fn, "strings.SplitN", "strings.Split", "strings.Fields", "strings.SplitAfterN")
+	splits := c.findSteps(fn, "strings.SplitN", "strings.Split", "strings.Fields", "strings.SplitAfterN")
 	if len(splits) != 1 {
 		c.Bad(rule, "Unmarshal split", fn.Pos(), "expected one split of the line, found %d", len(splits))
 		return
 	}
-	sp := splits[0].(*ssa.Call)
+	sp := splits[0].call
 	sep, _ := constString(arg(sp, 1))
 	n, okn := constInt(arg(sp, 2))
 	c.Check(calleeName(sp) == "strings.SplitN" && sep == ":" && okn && n == 3, rule, "Unmarshal split", sp.Pos(), "SplitN(line, \":\", 3): a value may contain ':'", "the line is not split with SplitN(line, \":\", 3): values containing ':' are truncated or mis-split")
@@ -391,6 +471,19 @@ func c19Parser(c *Ctx) {
 			continue
 		}
 		core, neg := normCond(ifi.Cond)
+		if ex, isEx := core.(*ssa.Extract); isEx {
+			// the split sits in a helper returning (..., ok): the branch on which the helper reports
+			// "not three fields" is the malformed-line edge
+			g := GNeq(isFieldsLen, func(v ssa.Value) bool { _, ok := constInt(v); return ok })
+			if _, isCall := ex.Tuple.(*ssa.Call); isCall {
+				for i, s := range b.Succs {
+					if predEstablishes(ifi.Cond, i == 0, g, 0) {
+						check("a line without three fields", b, s)
+					}
+				}
+			}
+			continue
+		}
 		bo, ok := core.(*ssa.BinOp)
 		if !ok {
 			continue
